@@ -24,6 +24,9 @@ def check(ctx):
     rows = R.run_kind(ctx, 'multi')
     R.compare(ctx, rows, proj_values, 'C04 multi-source operators (TakeUntil, SkipUntil, SampleWhen, ThrottleWhen, Merge*, Race*): delivered values and terminal',
               nontrivial=lambda c, gd: gd.get('trace', '-') != '-', max_report=2)
+    # FloorWithPrecision / CeilWithPrecision over exactly representable inputs: the integer n of result = n / 10^places
+    rows = R.run_kind(ctx, 'precision', shards=2)
+    R.compare(ctx, rows, proj_all, 'C04 FloorWithPrecision / CeilWithPrecision: n with result = n / 10^places (integers compared)', nontrivial=lambda c, gd: True, max_report=2)
     more_rule = C04_more.parts(ctx)
     gen = C04_gen.parts(ctx)
     cre = C04_create.parts(ctx)
